@@ -57,7 +57,7 @@ def _durations(zero_ok, max_duration):
     return st.integers(1, max_duration)
 
 
-_NAMES = st.text(alphabet="abcXYZ019_-", min_size=0, max_size=6)
+_NAMES = st.text(alphabet="abcXYZ019_-. ", min_size=0, max_size=6)
 _META = st.dictionaries(
     st.sampled_from(["optimum", "lower_bound", "k", "tag"]),
     st.one_of(st.integers(0, 99), st.text("ab", max_size=2), st.none()),
